@@ -72,7 +72,27 @@ impl PropertyName {
 impl ToInternedString for PropertyName {
     fn to_interned_string(&self, interner: &Interner) -> String {
         match self {
-            Self::Literal(key) => interner.resolve_expect(key.sym()).to_string(),
+            Self::Literal(key) => {
+                // Only a name that can be written as an identifier is printed bare.
+                let name = interner.resolve_expect(key.sym());
+                let units = name.utf16();
+                let is_start = |u: u16| {
+                    u == u16::from(b'_')
+                        || u == u16::from(b'$')
+                        || u8::try_from(u).is_ok_and(|b| b.is_ascii_alphabetic())
+                };
+                let is_part =
+                    |u: u16| is_start(u) || u8::try_from(u).is_ok_and(|b| b.is_ascii_digit());
+                if units.first().is_some_and(|u| is_start(*u)) && units.iter().all(|u| is_part(*u))
+                {
+                    name.to_string()
+                } else {
+                    let mut buf = String::from('"');
+                    crate::expression::literal::push_escaped(&mut buf, units, '"');
+                    buf.push('"');
+                    buf
+                }
+            }
             Self::Computed(key) => format!("[{}]", key.to_interned_string(interner)),
         }
     }
